@@ -32,6 +32,8 @@ pub mod query;
 pub mod schema;
 pub mod sharding;
 pub mod telemetry;
+#[cfg(feature = "verif-hooks")]
+pub mod verif_hooks;
 
 mod error;
 
